@@ -26,6 +26,8 @@ type Ctx struct {
 	gScope  map[*ssa.Function]bool
 
 	startReach map[*ssa.Function]bool
+	sum        *core.Summaries
+	mods       *core.ModSets
 }
 
 // Registry maps property ids to their rule sets.
